@@ -16,6 +16,7 @@ for id in $IDS; do
   [ -f $src/patch.diff ] || { echo -e "$id\tno-patch" >> $OUT; continue; }
   (cd $WT && git checkout -q -- . && git clean -fdq)
   rm -rf $WT/SEED; mkdir -p $WT/SEED/$s; cp -r $src/. $WT/SEED/$s/
+  [ -f $src/seed_root_go.mod ] && cp $src/seed_root_go.mod $WT/SEED/go.mod
   run="$src/RUN.txt"
   # demo on the unchanged tree
   (cd $WT && bash -e $run > /tmp/confirm/$id.clean.log 2>&1); clean=$?
